@@ -130,7 +130,7 @@ Proof.
           rewrite firstn_length. unfold zlen in Hlong.
           replace (8 + Z.to_nat size - Nat.min 8 (length s))%nat with (Z.to_nat size) by lia. reflexivity. }
         rewrite Hfr. apply FV_frame; auto.
-        rewrite Hc2, Hc1, Hnat. rewrite skipn_skipn'. reflexivity.
+        fold size. rewrite Hc2, Hc1, Hnat. rewrite skipn_skipn'. reflexivity.
 Qed.
 
 (* the frames of a chunked connection are the frames of its byte stream *)
